@@ -598,6 +598,7 @@ func c13(p *core.Program, r *core.Report) {
 		seen := map[*ssa.Function]bool{}
 		var inexact []string
 		orient := map[*ssa.Function]int{}
+		orientVia := map[string]int{} // by the start function the call was reached from, when it sits in another top-level function
 		var scan func(f *ssa.Function, root *ssa.Function, depth int)
 		scan = func(f *ssa.Function, root *ssa.Function, depth int) {
 			if f == nil || seen[f] || depth > 5 || len(f.Blocks) == 0 {
@@ -615,10 +616,18 @@ func c13(p *core.Program, r *core.Report) {
 				case mod + "/bigxy":
 					if g.Name() == "OrientationIndex" {
 						orient[topLevel(f)]++
+						if topLevel(f) != root {
+							orientVia[root.Name()]++
+						}
 					}
 				case mod + "/xy":
 					if g.Name() == "OrientationIndex" {
 						orient[topLevel(f)]++
+						if topLevel(f) != root {
+							orientVia[root.Name()]++
+						}
+					} else if strings.HasSuffix(f.Name(), "$bound") {
+						scan(g, root, depth+1) // the method a method value is bound to
 					} else if strings.Contains(short(g), "convexHullCalculator") || strings.Contains(short(g), "Radial") || g.Parent() != nil {
 						scan(g, root, depth+1)
 					}
@@ -629,6 +638,16 @@ func c13(p *core.Program, r *core.Report) {
 			for _, a := range f.AnonFuncs {
 				scan(a, root, depth+1)
 			}
+			// function values made here: closures, and method values bound to a receiver (`order.isLess`)
+			for _, b := range f.Blocks {
+				for _, in := range b.Instrs {
+					if mc, ok := in.(*ssa.MakeClosure); ok {
+						if tf, ok := mc.Fn.(*ssa.Function); ok {
+							scan(tf, root, depth+1)
+						}
+					}
+				}
+			}
 		}
 		for _, f := range start {
 			root := f
@@ -638,12 +657,22 @@ func c13(p *core.Program, r *core.Report) {
 			scan(f, root, 0)
 		}
 		r.Check(len(inexact) == 0, r5, "xy.hull/no-rounded-determinant", "xy/convex_hull.go", true, "no call into robustdeterminate from the hull code", fmt.Sprintf("the hull code takes the sign of a determinant of rounded differences: %v", inexact))
+		// the comparator: everything NewRadialSorting reaches on its own (closures, bound method values and their callees)
 		nr := 0
-		for root, n := range orient {
-			if root.Name() == "NewRadialSorting" {
-				nr = n
+		if f := p.SSAFunc("xy", "NewRadialSorting"); f != nil {
+			seen = map[*ssa.Function]bool{}
+			before := 0
+			for _, n := range orient {
+				before += n
 			}
+			scan(f, f, 0)
+			after := 0
+			for _, n := range orient {
+				after += n
+			}
+			nr = after - before
 		}
+		_ = orientVia
 		r.Check(nr >= 1, r5, "xy.NewRadialSorting/comparator", "xy/radial_comparator.go", true, fmt.Sprintf("%d OrientationIndex call(s) in the comparator", nr), "the radial comparator no longer decides the angular order with OrientationIndex")
 	}
 
@@ -704,7 +733,7 @@ func c20(p *core.Program, r *core.Report) {
 	const r1 = "mask-discipline"
 	r.Rule(r1, "in SimplifyFlatCoords/dpWorker only the constant 1 is ever stored into mask; mask[0] and mask[len(mask)-1] are set before dpWorker runs; the result is built by appending the index of an ascending range over mask (strictly increasing indexes containing first and last); the size < 3 path returns the identity 0..size-1", 4)
 	fn := mustFn(p, r, r1, "xy", "SimplifyFlatCoords")
-	dw := mustFn(p, r, r1, "xy", "dpWorker")
+	dw := mustRdpWorker(p, r, r1)
 	if fn != nil && dw != nil {
 		isByteSlice := func(t types.Type) bool {
 			s, ok := t.Underlying().(*types.Slice)
@@ -827,7 +856,7 @@ func c20(p *core.Program, r *core.Report) {
 		}
 		r.Check(idOK, r1, "xy.SimplifyFlatCoords/identity-small", p.Pos(fn.Pos()), true, "size < 3 returns ret[i] = i", "the size < 3 path does not return the identity")
 	}
-	strideRule(p, r, "stride-discipline", []strideTarget{{"xy", "dpWorker", "all"}, {"xy", rdpDistanceName(p), "xy"}, {"xy", "SimplifyFlatCoords", "all"}})
+	strideRule(p, r, "stride-discipline", []strideTarget{{"xy", rdpWorkerName(p), "all"}, {"xy", rdpDistanceName(p), "xy"}, {"xy", "SimplifyFlatCoords", "all"}})
 	pointSegmentFormulaRule(p, r, "point-segment-formula", []pointSegTarget{{"xy", rdpDistanceName(p), 2}}, 1)
 	differencesOfInputsRule(p, r, "distance-from-input-differences", rdpDistanceFn(p))
 	clampedProjectionRule(p, r, "segment-distance-clamped", [][2]string{{"xy", rdpDistanceName(p)}})
